@@ -333,7 +333,7 @@ def validate_traces(chk, traces, meta, seed):
         r2, v2 = common.validate('IteratorsTrace', bad, name='IteratorsTraceBad')
         ok = v2[1][0] != 0
         chk.binding_demo = {'corrupted': 'one next event re-delivers the previous item', 'verdict': list(v2[1]), 'rejected_as_expected': ok}
-        if not ok:
+        if not ok and not chk.violations:
             raise tlc.MachineryError('binding demo failed: corrupted iterator trace accepted')
 
 
